@@ -26,10 +26,13 @@ let table : (string * (v list -> v)) list = [
   ("c13_stats", (fun a -> match a with [xs] -> of_stat (Stats.stats fops (to_flist xs)) | _ -> failwith "args"));
   ("c13_merge_chunks", (fun a -> match a with [cs] -> of_stat (Stats.merge_chunks fops (to_fmat cs)) | _ -> failwith "args"));
   ("c13_from_samples", (fun a -> match a with [xs] -> of_result (Stats.statistics_from_samples fops (to_flist xs)) | _ -> failwith "args"));
-  (* has_init init_len num_chains num_samples burn_in steps overwrite
-       -> [chains draws [k...] count init_kind] *)
-  ("c13_schedule", (fun a -> match a with [hi; il; nc; s; burn; steps; ow] ->
-      let init_len = if to_bool hi then Some (to_nat il) else None in
+  (* has_init init_len num_chains num_samples burn_in steps overwrite chains_override
+       -> [chains draws [k...] count init_kind]
+     chains_override > 0: the number of chains is taken as observed on the implementation (the model's
+     schedule is then evaluated for that many chains, as it is for user-supplied chains of that length);
+     0: the model's own rule num_chains_eff decides *)
+  ("c13_schedule", (fun a -> match a with [hi; il; nc; s; burn; steps; ow; ov] ->
+      let init_len = if to_int ov > 0 then Some (to_nat ov) else if to_bool hi then Some (to_nat il) else None in
       let chains = Stats.num_chains_eff init_len (to_nat nc) (to_nat s) in
       if int_of_nat chains = 0 then failwith "zero chains" else
       let draws = Stats.num_draws (to_nat s) chains in
@@ -38,15 +41,15 @@ let table : (string * (v list -> v)) list = [
           of_int (int_of_nat chains * int_of_nat draws);
           of_int (init_kind_code (Stats.first_init_kind (to_bool hi) (to_bool ow))) ]
     | _ -> failwith "args"));
-  (* per-draw observable values (replayed by the sampler), has_init init_len num_chains num_samples burn_in steps
+  (* per-draw observable values (replayed by the sampler), has_init init_len num_chains num_samples burn_in steps chains_override
        -> [result [k...] [n...] [tag of each call's initial_state: -2 none, -1 caller's chains, i = result of draw i]] *)
-  ("c13_statistics", (fun a -> match a with [vals; hi; il; nc; s; burn; steps] ->
+  ("c13_statistics", (fun a -> match a with [vals; hi; il; nc; s; burn; steps; ov] ->
       let vals = to_fmat vals in
-      let il = to_nat il in
+      let il = if to_int ov > 0 then to_nat ov else to_nat il in
       let clen (_ : int * float list) = il in
       let samp i _ _ _ = let i = int_of_nat i in (i, nth_or [] vals i) in
       let obs (c : int * float list) = snd c in
-      let init = if to_bool hi then Some (-1, []) else None in
+      let init = if to_bool hi then Some (-1, []) else if to_int ov > 0 then Some (-2, []) else None in
       let chains = Stats.chains_of clen init (to_nat nc) (to_nat s) in
       if int_of_nat chains = 0 then failwith "zero chains" else
       let r = Stats.statistics fops clen samp obs init (to_nat s) (to_nat nc) (to_nat burn) (to_nat steps) in
@@ -56,14 +59,14 @@ let table : (string * (v list -> v)) list = [
           L (Stdlib.List.map (fun c -> of_nat c.Stats.c_n) tr);
           L (Stdlib.List.map (fun c -> match c.Stats.c_init with None -> of_int (-2) | Some (t, _) -> of_int t) tr) ]
     | _ -> failwith "args"));
-  (* per-draw, per-observable values; number of observables; then as above -> [result per observable] *)
-  ("c13_system", (fun a -> match a with [vals; nobs; hi; il; nc; s; burn; steps] ->
+  (* per-draw, per-observable values; number of observables; then as above (incl. chains_override) -> [result per observable] *)
+  ("c13_system", (fun a -> match a with [vals; nobs; hi; il; nc; s; burn; steps; ov] ->
       let vals = Stdlib.List.map to_fmat (to_list vals) in
-      let il = to_nat il in
+      let il = if to_int ov > 0 then to_nat ov else to_nat il in
       let clen (_ : float list list) = il in
       let samp i _ _ _ = nth_or [] vals (int_of_nat i) in
       let obss = Stdlib.List.init (to_int nobs) (fun j -> (fun (c : float list list) -> nth_or [] c j)) in
-      let init = if to_bool hi then Some [] else None in
+      let init = if to_bool hi || to_int ov > 0 then Some [] else None in
       let chains = Stats.chains_of clen init (to_nat nc) (to_nat s) in
       if int_of_nat chains = 0 then failwith "zero chains" else
       L (Stdlib.List.map of_result
